@@ -26,21 +26,24 @@ partial def parseErr : List String → Option (Err × List String)
 
 def b01 (b : Bool) : String := if b then "1" else "0"
 
-def observe (e : Err) : String :=
+/-- `mask`: message and text replaced by `~` (carriers for which only identity is compared). -/
+def observe (e : Err) (mask : Bool := false) : String :=
   let st := match asHTTP e with | some s => toString s | none => "-"
   let (code, msg, detail) := match asOci e with
-    | some w => (Hex.encodeTok w.1, Hex.encodeTok w.2.1, match w.2.2 with | some d => Hex.encodeTok d | none => "-")
+    | some w => (Hex.encodeTok w.1, if mask then "~" else Hex.encodeTok w.2.1, match w.2.2 with | some d => Hex.encodeTok d | none => "-")
     | none => ("-", "-", "-")
   let isv := String.join (stdCodes.map fun c => b01 (is c e))
-  s!"{st} {code} {msg} {detail} {Hex.encodeTok (text S C e)} {isv}"
+  s!"{st} {code} {msg} {detail} {if mask then "~" else Hex.encodeTok (text S C e)} {isv}"
 
-/-- `hop <n> <carrier> <err…>`: carriers whose name starts with `Resolve` are HEAD-based. -/
+/-- `hop <n> <carrier> <err…>`: carriers whose name starts with `Resolve` are HEAD-based; for
+carriers whose name starts with `Writer` (errors out of a `BlobWriter`) the message is masked
+after the first hop: client and server add context to it on purpose. -/
 def drive : List String → String
   | "hop" :: n :: carrier :: rest =>
     match n.toNat?, parseErr rest with
     | some n, some (e, []) =>
       let head := carrier.startsWith "Resolve"
-      observe (hops S C compactJSON genTable stdMsg head n e)
+      observe (hops S C compactJSON genTable stdMsg head n e) (carrier.startsWith "Writer" && n > 0)
     | _, _ => "bad-op"
   | "hopbig" :: _ => "skip"     -- error bodies beyond the client's size limit: not modelled
   | _ => "bad-op"
